@@ -295,7 +295,7 @@ GATES1 = ["H", "S", "T", "X", "Y", "Z"]
 @st.composite
 def tk_programs(draw, tier, measure=True):
     big = tier == "thorough"
-    n = draw(st.integers(1, 4 if big or not measure else 3))
+    n = draw(st.integers(1, 5 if not measure else 4 if big else 3))
     nb = draw(st.integers(0, 3 if big else 2)) if measure else 0
     ops = []
     for _ in range(draw(st.integers(1, 10 if big else 8))):
@@ -307,15 +307,15 @@ def tk_programs(draw, tier, measure=True):
         if draw(st.integers(0, 150)) == 0 and n >= 2:
             kinds = ["swap"]
         kind = draw(st.sampled_from(kinds))
-        q = draw(st.integers(0, n - 1))
+        q = draw(st.sampled_from([0, n - 1] + list(range(n))))
         if kind == "g1":
             ops.append([draw(st.sampled_from(GATES1)), [], [q], []])
         elif kind == "rot":
             ops.append([draw(st.sampled_from(["Rx", "Rz"])),
                         [draw(st.integers(-16, 16)) / 8], [q], []])
         elif kind in ("g2", "crz", "swap"):
-            q2 = draw(st.integers(0, n - 2))
-            q2 = q2 + 1 if q2 >= q else q2
+            q2 = draw(st.sampled_from(
+                [x for x in [0, n - 1] + list(range(n)) if x != q]))
             if kind == "g2":
                 ops.append([draw(st.sampled_from(["CX", "CZ"])), [], [q, q2],
                             []])
